@@ -2,12 +2,6 @@ import Upf.Model.Strip
 
 namespace Strip
 
-#eval removeComments "{\n  // c1\n  \"a\": 1, /* x // y */ \"b\": 2, /* open\n \"p\": \"/tmp/x\" /*/ */ }"
-
-end Strip
-
-namespace Strip
-
 theorem strip_code_ne (c : Char) (rest : List Char) (h : c ≠ '/') :
     strip .code (c :: rest) = c :: strip .code rest := by
   cases rest with
@@ -136,7 +130,115 @@ theorem strip_render (ps : List Piece) (h : WF ps) : strip .code (render ps) = e
         simp [strip, hc]
       rw [e, block_skip b _ hnp, ih hw]
 
-#print axioms strip_render
+/-! ## further facts about the scanner -/
+
+/-- the scanner only deletes: its output is never longer than its input (in every mode) -/
+theorem strip_length_le (m : Mode) (s : List Char) : (strip m s).length ≤ s.length := by
+  fun_induction strip m s <;> simp_all <;> omega
+
+theorem noPair_append (a b : Char) (xs ys : List Char) (hx : NoPair a b xs) (hy : NoPair a b ys)
+    (hl : xs.getLast? ≠ some a) : NoPair a b (xs ++ ys) := by
+  induction xs with
+  | nil => simpa using hy
+  | cons x t ih =>
+    cases t with
+    | nil =>
+      cases ys with
+      | nil => simp [NoPair]
+      | cons y r =>
+        have : x ≠ a := by simpa using hl
+        simp only [List.cons_append, List.nil_append, NoPair]
+        exact ⟨fun h => this h.1, hy⟩
+    | cons d r =>
+      simp only [List.cons_append, NoPair] at hx ih ⊢
+      exact ⟨hx.1, ih hx.2 (by simpa [List.getLast?_cons_cons] using hl)⟩
+
+theorem plain_nil : Plain [] := ⟨trivial, trivial, by simp⟩
+
+theorem plain_concat (xs ys : List Char) (hx : Plain xs) (hy : Plain ys) : Plain (xs ++ ys) := by
+  obtain ⟨x1, x2, x3⟩ := hx
+  obtain ⟨y1, y2, y3⟩ := hy
+  refine ⟨noPair_append _ _ _ _ x1 y1 x3, noPair_append _ _ _ _ x2 y2 x3, ?_⟩
+  cases ys with
+  | nil => simpa using x3
+  | cons y r => simpa [List.getLast?_append] using y3
+
+/-- what is left of a well-formed document is comment-free text -/
+theorem expected_plain (ps : List Piece) (h : WF ps) : Plain (expected ps) := by
+  induction ps with
+  | nil => exact plain_nil
+  | cons p ps ih =>
+    cases p with
+    | text cs => exact plain_concat _ _ h.1 (ih h.2)
+    | line b => exact ih h.2.1
+    | block b => exact ih h.2.2
+
+/-- comment-free text is left alone -/
+theorem strip_plain (cs : List Char) (h : Plain cs) : strip .code cs = cs := by
+  have := plain_append cs [] h
+  simpa [strip] using this
+
+/-- on well-formed documents a second pass changes nothing -/
+theorem strip_idem_render (ps : List Piece) (h : WF ps) :
+    strip .code (strip .code (render ps)) = strip .code (render ps) := by
+  rw [strip_render ps h, strip_plain _ (expected_plain ps h)]
+
+/-! ## the executable well-formedness check is sound -/
+
+theorem noPairB_sound (a b : Char) (l : List Char) (h : noPairB a b l = true) : NoPair a b l := by
+  induction l with
+  | nil => trivial
+  | cons x t ih =>
+    cases t with
+    | nil => trivial
+    | cons y r =>
+      simp only [noPairB, Bool.and_eq_true, Bool.not_eq_true', Bool.and_eq_false_iff, beq_eq_false_iff_ne] at h
+      refine ⟨?_, ih h.2⟩
+      rintro ⟨rfl, rfl⟩
+      rcases h.1 with h1 | h1 <;> exact h1 rfl
+
+theorem plainB_sound (cs : List Char) (h : plainB cs = true) : Plain cs := by
+  simp only [plainB, Bool.and_eq_true, bne_iff_ne] at h
+  exact ⟨noPairB_sound _ _ _ h.1.1, noPairB_sound _ _ _ h.1.2, h.2⟩
+
+theorem wfB_sound (ps : List Piece) (h : wfB ps = true) : WF ps := by
+  induction ps with
+  | nil => trivial
+  | cons p ps ih =>
+    cases p with
+    | text cs =>
+      simp only [wfB, Bool.and_eq_true] at h
+      exact ⟨plainB_sound cs h.1, ih h.2⟩
+    | line b =>
+      simp only [wfB, Bool.and_eq_true, Bool.not_eq_true', List.contains_eq_mem, decide_eq_false_iff_not] at h
+      refine ⟨h.1.1, ih h.1.2, ?_⟩
+      have hs := h.2
+      cases ps with
+      | nil => exact Or.inl rfl
+      | cons q qs =>
+        right
+        cases q with
+        | text cs =>
+          cases cs with
+          | nil => simp [startsWithNewlineText] at hs
+          | cons c r =>
+            by_cases hc : c = '\n'
+            · subst hc; exact ⟨r, qs, rfl⟩
+            · exfalso
+              unfold startsWithNewlineText at hs
+              split at hs
+              · cases ‹_ :: _ = []›
+              · rename_i heq
+                injection heq with h1 _
+                injection h1 with h1
+                injection h1 with h1 _
+                exact hc h1
+              · cases hs
+        | line b' => simp [startsWithNewlineText] at hs
+        | block b' => simp [startsWithNewlineText] at hs
+    | block b =>
+      simp only [wfB, Bool.and_eq_true, Bool.not_eq_true', List.contains_eq_mem, decide_eq_false_iff_not] at h
+      exact ⟨h.1.1, noPairB_sound _ _ _ h.1.2, ih h.2⟩
 
 end Strip
 
